@@ -408,6 +408,7 @@ def _alarm(*_):
 
 
 def run(ctx):
+    ctx.no_watchdog()   # this check runs the implementation in worker processes / under its own alarms
     rng = ctx.rng
     table = load_table()
     nhist = (90 if ctx.tier == "quick" else 500) * ctx.escalate
